@@ -1049,4 +1049,20 @@ CASES = [
  dict(name="c04-set-comparator-lost", ids=["C04"], rule="C04.R7a", subs=[("std/Set.h", "typename std::conditional<std::is_same<Compare, std::less<Key>>::value, std::less<ReturnType>, Compare>::type;", "typename std::conditional<std::is_same<ReturnType, Key>::value, Compare, std::less<ReturnType>>::type;")]),
  dict(name="c04-hex-escape-unmasked", ids=["C04"], rule="C04.R8a", subs=[(BW, "          formatted_msg.append(std::string{hex[(c >> 4) & 0xF]});", "          formatted_msg.append(std::string{hex[c >> 4]});")]),
  dict(name="c04-vector-decoded-reversed", ids=["C04"], rule="C04.R7b", subs=[("std/List.h", "arg.emplace_back(Codec<T>::decode_arg(buffer));", "arg.emplace_front(Codec<T>::decode_arg(buffer));")]),
+
+ dict(name="c12-named-args-buffer-stale", ids=["C12"], rule="C12.R2h", subs=[(PFH, """      _formatted_named_args_buffer.clear();
+
+      if (named_args)
+      {""", """      if (named_args)
+      {
+        _formatted_named_args_buffer.clear();""")]),
+ dict(name="c12-multiline-search-skips-char", ids=["C12"], rule="C12.R5d", subs=[(BW, "      size_t const end = msg.find_first_of('\\n', start);", "      size_t const end = msg.find_first_of('\\n', start + 1);")]),
+ dict(name="c13-date-buffer-not-cleared", ids=["C13"], rule="C13.R1g", subs=[(TFH, "    // First always clear our cached string\n    _formatted_date.clear();", "    // First always clear our cached string\n    if (_has_format_part_2) { _formatted_date.clear(); }")]),
+ dict(name="c04-message-buffer-not-cleared", ids=["C04"], rule="C04.R6e", subs=[(BW, """  QUILL_ATTRIBUTE_HOT void _populate_formatted_log_message(TransitEvent* transit_event, char const* message_format)
+  {
+    transit_event->formatted_msg->clear();
+""", """  QUILL_ATTRIBUTE_HOT void _populate_formatted_log_message(TransitEvent* transit_event, char const* message_format)
+  {
+    if (transit_event->named_args) { transit_event->formatted_msg->clear(); }
+""")]),
 ]
